@@ -29,8 +29,76 @@ def numeric_operand(rng, d, maxlen, lo=-3, hi=3, frac=False, pad=0.15):
     return {'keys': keys, 'vals': vals}
 
 
+def generator_stage(ctx):
+    """InverseModel: the transcribed closed forms (d <= 5) and the recursion (any d) are adjugates, agree with each other and
+    the recursion terminates with exact divisions, for every operand TLC enumerates; the enumerated cases (state dump) and
+    sampled ones (custom bases, d = 4..6) are replayed into the REAL generators (codegen_hitzer_inv, codegen_shirokov_inv,
+    codegen_inv), whose (numerator, denominator) at the integer point TLC validates against the model (TraceInverse)."""
+    import os
+    import tlaparse
+    from drive_inverse import run_jobs
+    from drive_ops import lookup_event
+    from opscheck import describe_cfg
+    rng, q = ctx.rng, ctx.quick
+    dump = os.path.join(ctx.work, 'inverse.dump')
+    cfgs = [('mc/MC_Inverse_quick.cfg', 'InverseModel: all signatures d <= 3, operands of <= 1/2/3/2 blades with coefficients in {-1, 1, 2}')] if q else \
+        [('mc/MC_Inverse_full3.cfg', 'InverseModel: all signatures d <= 3, every operand with coefficients in {-1, 1, 2} (d = 3: {-1, 1})'),
+         ('mc/MC_Inverse_d45.cfg', 'InverseModel: one ordering per (p,q,r), d = 4, 5, operands of <= 2 blades'),
+         ('mc/MC_Inverse_d6.cfg', 'InverseModel: the recursion in d = 6 (N = 8), one ordering per (p,q,r), operands of <= 2 blades')]
+    for i, (cfg, what) in enumerate(cfgs):
+        r = ctx.mc('mc/MC_Inverse.tla', cfg, what, extra_args=('-dump', dump) if i == 0 else (), timeout=3300)
+        if not r['ok']:
+            ctx.report(f"InverseModel ({what}) violates {r['violated']}", {'kind': 'spec', 'violated': ','.join(r['violated'])}, {'tail': r['out'][-2000:]})
+    cases = [st['st'] for st in tlaparse.parse_dump(dump) if st['st'].get('phase') == 'case'] if os.path.exists(dump) else []
+    ctx.extra['inverse_model_cases_from_tlc_dump'] = len(cases)
+    if len(cases) > (600 if q else 6000):
+        cases = rng.sample(cases, 600 if q else 6000)
+    bysig = {}
+    for cs in cases:
+        x = cs['x']
+        keys = sorted(x) if isinstance(x, dict) else []
+        if not keys:
+            continue
+        bysig.setdefault(tuple(cs['sig']), []).append((rng.choice(['dispatch', 'hitzer', 'shirokov']), keys, [x[k] for k in keys]))
+    tdir = os.path.join(ctx.work, 'adj')
+    os.makedirs(tdir, exist_ok=True)
+    jobs = []
+    for sig, lst in bysig.items():
+        for j in range(0, len(lst), 40):
+            jobs.append({'u': ucfg(sig=list(sig)), 'cases': lst[j:j + 40], 'seed': ctx.seed, 'prefix': f'm{len(jobs)}', 'out': os.path.join(tdir, f'm{len(jobs)}.ndjson')})
+    # beyond the model's bounds: custom bases, d = 4, 5 (closed forms) and d = 6 (recursion), permuted key tuples
+    extra = [(named_ucfg('2DPGA'), 3, 12), (named_ucfg('3DPGA'), 4, 8), (ucfg(sig=[1, 1, 1, -1]), 4, 8), (ucfg(sig=[0, 1, 1, 1, 1]), 5, 4), (ucfg(sig=[1, 1, 1, 1, -1]), 5, 4),
+             (ucfg(sig=[1, 1, 1, 1, 1, 1]), 6, 2), (ucfg(sig=[0, 1, 1, 1, 1, -1]), 6, 2)]
+    for u, d, n in extra:
+        cs = []
+        for _ in range(n if q else 4 * n):
+            keys = list(P.random_key_tuple(rng, d, 3 if d <= 5 else 2, 1))
+            gens = ['dispatch', 'shirokov'] + (['hitzer'] if d <= 5 else [])
+            cs.append((rng.choice(gens), keys, [rng.choice([1, -1, 2, -2, 3]) for _ in keys]))
+        jobs.append({'u': u, 'cases': cs, 'seed': ctx.seed, 'prefix': f'x{len(jobs)}', 'out': os.path.join(tdir, f'x{len(jobs)}.ndjson'), 'budget': 240})
+    res = run_jobs(jobs)
+    files = [r['out'] for r in res if r['events']]
+    skipped = [s_ for r in res for s_ in r['skipped']]
+    if skipped:
+        ctx.extra['skipped_generator_cases'] = len(skipped)
+    n = 0
+    for f, (eid, clause) in ctx.validate('TraceInverse.tla', 'TraceInverse.cfg', files):
+        header, ev = lookup_event(f, eid)
+        ctx.report(f"{ev['gen']} inverse generator in {describe_cfg(header['u'])} on x = {ev['x']}: {clause}" + (f" (raised {ev['raised']})" if ev['raised'] else ''),
+                   {'kind': 'adj', 'gen': ev['gen'], 'clause': clause, 'raised': ev['raised']}, {'trace_header': header, 'event': ev, 'spec': 'TraceInverse.tla'})
+    import json
+    for f in files:
+        lines = list(open(f))
+        for line in lines[1:]:
+            ev = json.loads(line)
+            n += 1
+            ctx.nontrivial.add(('adj', lines[0], ev['gen'], json.dumps(ev['x'])))
+    ctx.extra['generator_pairs_validated'] = n
+
+
 def run(ctx):
     run_ref_mc(ctx)
+    generator_stage(ctx)
     rng, q = ctx.rng, ctx.quick
     groups = []
     # (1) generic coefficients: all values at once.  d <= 2: every ordered key tuple; d = 3: <= 3 blades;
